@@ -153,35 +153,60 @@ def build(targets=None):
     return rc, out
 
 
+def property_files(pid):
+    """Properties/<pid>.v and Properties/<pid><suffix>.v (e.g. C04a.v, C19_x.v)"""
+    d = os.path.join(COQ, 'Properties')
+    out = []
+    for fn in sorted(os.listdir(d)):
+        m = re.match(rf'^({pid}(?:[a-z]|_\w+)?)\.v$', fn)
+        if m:
+            out.append(m.group(1))
+    return out
+
+
 def theorems_of(pid):
-    p = os.path.join(COQ, 'Properties', f'{pid}.v')
-    if not os.path.exists(p):
-        return []
-    src = open(p).read()
-    return re.findall(r'^\s*(?:Theorem|Corollary)\s+(\w+)', src, re.M)
+    out = []
+    for base in property_files(pid):
+        src = open(os.path.join(COQ, 'Properties', base + '.v')).read()
+        src = re.sub(r'\(\*.*?\*\)', '', src, flags=re.S)
+        out += [(base, t) for t in re.findall(r'^\s*(?:Theorem|Corollary)\s+(\w+)', src, re.M)]
+    return out
 
 
 def check_obligations(ctx):
-    """Compile Properties/<pid>.v, print the assumptions of each theorem,
+    """Compile Properties/<pid>*.v, print the assumptions of each theorem,
     scan the development for forbidden declarations."""
     pid = ctx.pid
-    thms = theorems_of(pid)
+    pairs = theorems_of(pid)
+    thms = [t for _, t in pairs]
     res = dict(theorems=thms, assumptions=dict(), discharged=0)
-    vo = os.path.join(COQ, 'Properties', f'{pid}.vo')
-    rc, out = build([f'Properties/{pid}.vo'])
-    if rc != 0 or not os.path.exists(vo) or 'Error' in out:
-        ctx.obligation_broken(f'Properties/{pid}.v does not build', out)
+    files = property_files(pid)
+    if not files:
+        ctx.obligation_broken(f'no Properties/{pid}*.v', '')
         return res
+    rc, out = build([f'Properties/{b}.vo' for b in files])
+    built = []
+    for b in files:
+        vo = os.path.join(COQ, 'Properties', f'{b}.vo')
+        v = os.path.join(COQ, 'Properties', f'{b}.v')
+        if os.path.exists(vo) and os.path.getmtime(vo) >= os.path.getmtime(v):
+            built.append(b)
+        else:
+            ctx.obligation_broken(f'Properties/{b}.v does not build', out)
     if not thms:
-        ctx.obligation_broken(f'Properties/{pid}.v states no theorem', '')
+        ctx.obligation_broken(f'Properties/{pid}*.v state no theorem', '')
+        return res
+    pairs = [(b, t) for b, t in pairs if b in built]
+    if not pairs:
         return res
     # assumptions, checked on this run
     tmp = os.path.join(COQ, 'Properties', f'_assum_{pid}.v')
     with open(tmp, 'w') as f:
-        f.write(f'From DD Require Import Properties.{pid}.\n')
-        for t in thms:
-            f.write(f'Print Assumptions {t}.\n')
-    rc, out = sh(f'cd {COQ} && timeout 600 coqc -Q . DD Properties/_assum_{pid}.v', timeout=700)
+        for b in built:
+            f.write(f'From DD Require Import Properties.{b}.\n')
+        for b, t in pairs:
+            f.write(f'Print Assumptions {b}.{t}.\n')
+    rc, out = sh(f'cd {COQ} && timeout 900 coqc -Q . DD Properties/_assum_{pid}.v', timeout=1000)
     for ext in ('v', 'vo', 'vok', 'vos', 'glob'):
         try:
             os.remove(os.path.join(COQ, 'Properties', f'_assum_{pid}.{ext}'))
@@ -196,7 +221,7 @@ def check_obligations(ctx):
         return res
     blocks = re.split(r'(?=Closed under the global context|Axioms:)', out)
     blocks = [b for b in blocks if b.startswith('Closed') or b.startswith('Axioms:')]
-    for t, b in zip(thms, blocks):
+    for (_, t), b in zip(pairs, blocks):
         if b.startswith('Closed'):
             res['assumptions'][t] = 'closed'
             res['discharged'] += 1
@@ -208,16 +233,17 @@ def check_obligations(ctx):
                 ctx.obligation_broken(f'{t} depends on a declared axiom', ax)
             else:
                 res['discharged'] += 1
-    if len(blocks) != len(thms):
+    if len(blocks) != len(pairs):
         ctx.obligation_broken('assumption report incomplete', out)
     # forbidden declarations anywhere in the development
     hits = []
-    for root, _, files in os.walk(COQ):
-        for fn in files:
+    for root, _, fls in os.walk(COQ):
+        for fn in fls:
             if fn.endswith('.v'):
-                for k, line in enumerate(open(os.path.join(root, fn)), 1):
-                    code = re.sub(r'\(\*.*?\*\)', '', line)
-                    if FORBIDDEN.search(code):
+                txt = open(os.path.join(root, fn)).read()
+                code = re.sub(r'\(\*.*?\*\)', lambda m: '\n' * m.group(0).count('\n'), txt, flags=re.S)
+                for k, line in enumerate(code.split('\n'), 1):
+                    if FORBIDDEN.search(line):
                         hits.append(f'{fn}:{k}: {line.strip()}')
     if hits:
         ctx.obligation_broken('forbidden declaration in the development', '\n'.join(hits))
@@ -399,7 +425,7 @@ def main(argv=None):
     cov = dict(
         obligations=max(1, len(obl['theorems'])) if obl['theorems'] else 1,
         discharged=obl['discharged'],
-        checker_cmd=f'cd /verif/coq && make -f Makefile.coq Properties/{pid}.vo '
+        checker_cmd=f'cd /verif/coq && make -f Makefile.coq Properties/{pid}*.vo '
                     f'&& coqc Print Assumptions (per theorem); ./check {pid} --tier {a.tier}',
         trusted_base=TRUSTED_BASE + list(getattr(mod, 'TRUSTED', [])),
         theorems=obl['theorems'],
